@@ -1422,7 +1422,14 @@ def __analyse_function(
     test_cluster: ModuleTestCluster,
     add_to_test: bool,
 ) -> None:
-    if __should_skip_by_visibility(func_name.rpartition(".")[2], add_to_test=add_to_test):
+    lambda_assigned_name: str | None = None
+    if getattr(func, "__name__", None) == "<lambda>":
+        # A lambda is known by the name it is assigned to, so that name (and not
+        # '<lambda>') decides on its visibility.
+        lambda_assigned_name = _get_lambda_assigned_name(module_tree, func.__code__.co_firstlineno)
+    if __should_skip_by_visibility(
+        (lambda_assigned_name or func_name).rpartition(".")[2], add_to_test=add_to_test
+    ):
         LOGGER.debug("Skipping function %s from analysis", func_name)
         return
     if inspect.iscoroutinefunction(func) or inspect.isasyncgenfunction(func):
@@ -1448,9 +1455,7 @@ def __analyse_function(
     expected_exceptions = description.raises if description is not None else set()
     cyclomatic_complexity = __get_mccabe_complexity(func_ast)
     if getattr(func, "__name__", None) == "<lambda>":
-        if lambda_assigned_name := _get_lambda_assigned_name(
-            module_tree, func.__code__.co_firstlineno
-        ):
+        if lambda_assigned_name:
             func_name = lambda_assigned_name
             func.__name__ = lambda_assigned_name
         else:
